@@ -8,8 +8,19 @@ V = os.path.dirname(os.path.dirname(os.path.abspath(__file__)))
 EXTRA = {"C01-2": ["C05", "C17"], "C17-2": ["C05"], "C08-1": ["C07"], "C08-2": ["C07"], "C09-1": ["C10"], "C09-2": ["C10"],
          "C10-2": ["C09"], "C10-3": ["C09"], "C10-9": ["C09"], "C10-7": ["C09"], "C20-3": ["C02"], "C05-1": ["C01"], "C19-3": ["C15"], "C15-2": ["C19"]}
 tier = sys.argv[1] if len(sys.argv) > 1 else "quick"
-names = sys.argv[2:] or sorted(d for d in os.listdir(os.path.join(V, "seeded")) if re.match(r"C\d\d-\d$", d))
-rows = []
+if tier == "--merge":
+    # rebuild MATRIX.json / MATRIX.md from the meta.json files (after lanes have been copied back)
+    tier, names = "merge", []
+    for name in sorted(d for d in os.listdir(os.path.join(V, "seeded")) if re.match(r"C\d\d-\d+$", d)):
+        m = json.load(open(os.path.join(V, "seeded", name, "meta.json")))
+        if "checked_at" in m:
+            names.append((name, m["property"], m.get("detected_by") or [], m.get("not_detected_by", []), m.get("run_notes", [])))
+    rows_merge = names
+    names = []
+else:
+    rows_merge = []
+names = (sys.argv[2:] if tier != "merge" else []) or ([] if tier == "merge" else sorted(d for d in os.listdir(os.path.join(V, "seeded")) if re.match(r"C\d\d-\d+$", d)))
+rows = list(rows_merge)
 for name in names:
     d = os.path.join(V, "seeded", name)
     meta = json.load(open(os.path.join(d, "meta.json")))
@@ -27,8 +38,8 @@ for name in names:
         else:
             notes.append("%s: rc=%d %s" % (prop, p.returncode, out.strip().splitlines()[-1][:200] if out.strip() else ""))
         print(name, prop, "rc=%d" % p.returncode, cls[:1], flush=True)
-    meta["checked_at"] = {"repo": subprocess.run(["git", "-C", "/repo", "rev-parse", "--short", "HEAD"], capture_output=True, text=True).stdout.strip(),
-                          "verif": subprocess.run(["git", "-C", V, "rev-parse", "--short", "HEAD"], capture_output=True, text=True).stdout.strip(),
+    meta["checked_at"] = {"repo": subprocess.run(["git", "-C", os.environ.get("VERIF_REPO", "/repo"), "rev-parse", "--short", "HEAD"], capture_output=True, text=True).stdout.strip(),
+                          "verif": os.environ.get("VERIF_COMMIT") or subprocess.run(["git", "-C", V, "rev-parse", "--short", "HEAD"], capture_output=True, text=True).stdout.strip(),
                           "time": time.strftime("%Y-%m-%dT%H:%M:%SZ", time.gmtime())}
     meta["detected_by"] = det or None
     meta["not_detected_by"] = missed
